@@ -350,11 +350,51 @@ class CopyProxy(object):
     def deepcopy(x, memo=None):
         if isinstance(x, (SymReal, SymBool)):
             return x
+        if isinstance(x, np.ndarray) and x.dtype == object:
+            return x.copy()
+        if isinstance(x, list):
+            return [CopyProxy.deepcopy(e) for e in x]
         return CopyProxy._copy.deepcopy(x)
 
     @staticmethod
     def copy(x):
         return CopyProxy._copy.copy(x)
+
+
+def where_ite(c, *ab):
+    """numpy.where that keeps a symbolic condition as an if-then-else TERM instead of splitting the path"""
+    if not ab:
+        return np.where(c)
+    a, b = ab
+
+    def pick(cc, aa, bb):
+        if isinstance(cc, SymBool):
+            if cc.t is T.TRUE:
+                return aa
+            if cc.t is T.FALSE:
+                return bb
+            return SymReal(T.ite(cc.t, term_of(aa), term_of(bb)))
+        return aa if cc else bb
+    if isinstance(c, (SymBool, bool, np.bool_)):
+        return pick(c, a, b)
+    c = np.asarray(c, dtype=object)
+    ca, aa, bb = np.broadcast_arrays(c, np.asarray(a, dtype=object), np.asarray(b, dtype=object))
+    out = np.empty(ca.shape, dtype=object)
+    for idx in np.ndindex(ca.shape):
+        out[idx] = pick(ca[idx], aa[idx], bb[idx])
+    return out if out.ndim else out.item()
+
+
+def flux_numpy():
+    """the name `numpy' inside radshock.py / utils.py / fnctn_*.py during a symbolic flux run: the engine's proxy, except
+    that tables assembled with numpy.append compare element-wise without deciding (LazyCmp) and numpy.where builds
+    if-then-else terms; the side of M = 1 each node lies on is then PROVED per node in claims() and the terms resolved"""
+    base = NumpyProxy()
+
+    def append(arr, values, axis=None):
+        r = np.append(arr, values, axis=axis)
+        return r.view(LazyCmp) if r.dtype == object else r
+    return Wrap(base, append=append, where=where_ite)
 
 
 def sym_int(x=0, *a):
@@ -516,11 +556,22 @@ class Flux(Obligation):
         self.max_paths = 24
         self.timeout_s = 40
         self.timeout_thorough_s = 600
+        self.twin_timeout_s = 2
+        self.budget_s = 240
         self.skip_validation = True      # (rho1, T1) are free roots in the symbolic run, fsolve output in the replay
 
     def shim_extra(self):
         return {'ExactSolution': Recorder, 'print': H.quiet_print, 'scipy': SciProxy(_MK[0]), 'int': sym_int,
-                'max': stubs.sym_max, 'min': stubs.sym_min, 'copy': CopyProxy}
+                'max': stubs.sym_max, 'min': stubs.sym_min, 'copy': CopyProxy, 'numpy': flux_numpy()}
+
+    sn = False
+
+    def _solver(self, p):
+        ut = H.mod(UT)
+        with patched(ut.ShockMethods_2T, make_2T_solution=fake_make_2T_solution):
+            s = H.mod(RS).nED_Solver(**p)
+        prob = s._nED_Solver__prob
+        return s, prob, prob.nED_profile
 
     def _params(self, mk):
         p = dict(M0=mk('M0'), rho0=mk('rho0'), gamma=mk('gamma'), Cv=mk('Cv'), Tref=mk('Tref'),
@@ -543,12 +594,11 @@ class Flux(Obligation):
                     m_.__dict__['scipy']._mk = mk
         p = self._params(mk)
         ut = H.mod(UT)
-        with patched(ut.ShockMethods_2T, make_2T_solution=fake_make_2T_solution):
-            s = H.mod(RS).nED_Solver(**p)
-        prob = s._nED_Solver__prob
-        prof = prob.nED_profile
+        s, prob, prof = self._solver(p)
         out = {'M0': p['M0'], 'gamma': p['gamma']}
         for k in ('Fr', 'Pr', 'Er', 'Mach', 'Density', 'Speed', 'Pressure', 'Tm', 'Tr'):
+            if k == 'Tr' and self.sn:
+                continue       # (Pr / f(Mach))**(1/4): fourth roots of interpolated quotients burden every query; not claimed
             out[k] = getattr(prof, k)
         out['SIE'] = prof.SIE
         out.update(P0=prob.P0, C0=prob.C0, rho1=prof.rho1, T1=prof.T1, M1=prof.M1, speed1=prof.speed1)
@@ -597,6 +647,18 @@ class Flux(Obligation):
         if self.fld:
             for i in range(6):
                 R0.let(cx['Lambda'][i], 'Lam%d' % i).let(cx['R'][i], 'Rlim%d' % i)
+        # which side of M = 1 each node is on: proved per node, then the if-then-else terms numpy.where left are resolved
+        for i in range(6):
+            Mi = cx['Mach'][i]
+            if i < 3:
+                cx.gt('the %s node is on the supersonic side: Mach > 1' % NODE_NAMES[i], Mi, 1)
+            else:
+                cx.le('the %s node is on the subsonic side: Mach <= 1' % NODE_NAMES[i], Mi, 1)
+            if cx.symbolic:
+                c_ = (Mi > 1)
+                if isinstance(c_, SymBool) and c_.t.op not in ('true', 'false'):
+                    R0.stages[0][c_.t] = T.TRUE if i < 3 else T.FALSE
+        R0.stage()
         P0v, C0v = R0(P0), R0(C0)
         mom_up = M0 * M0 + 1 / g + P0v / 3
         en_up = M0 * (M0 * M0 / 2 + 1 / (g * (g - 1)) + 1 / g) + P0v * M0 * 4 / 3
@@ -617,7 +679,8 @@ class Flux(Obligation):
             R5.let(That, T1)
         for i in self.nodes:
             nm = NODE_NAMES[i]
-            rho, u, p, e, Tm, Tr = (cx[k][i] for k in ('Density', 'Speed', 'Pressure', 'SIE', 'Tm', 'Tr'))
+            rho, u, p, e, Tm = (cx[k][i] for k in ('Density', 'Speed', 'Pressure', 'SIE', 'Tm'))
+            Tr = None if self.sn else cx['Tr'][i]
             Pr, Er, Fr, Mi, K = (cx[k][i] for k in ('Pr', 'Er', 'Fr', 'Mach', 'K'))
             # interior nodes: the node density (and, for the energy claims, the subtracted constant) generalised as well
             Rn = R0 if i == 0 else (R5 if i == 5 else Rew(cx, R0).let(rho, 'r'))
@@ -628,8 +691,9 @@ class Flux(Obligation):
             cx.eq('ideal gas: p == rho T / gamma at the %s node' % nm, Rn(p * g), Rn(rho * Tm), when=okr)
             cx.eq('ideal gas: e == T / (gamma (gamma-1)) at the %s node' % nm, Rn(e * g * (g - 1)), Rn(Tm), when=okr)
             cx.eq('local Mach number: Mach^2 T == u^2 at the %s node' % nm, Rn(Mi * Mi * Tm), Rn(u * u), when=okr)
-            cx.eq('radiation temperature: Tr^4 == Er at the %s node' % nm, Rn(Tr * Tr * Tr * Tr), Rn(Er), when=okr)
-            if not self.fld:
+            if not self.sn:
+                cx.eq('radiation temperature: Tr^4 == Er at the %s node' % nm, Rn(Tr * Tr * Tr * Tr), Rn(Er), when=okr)
+            if not self.fld and not self.sn:
                 cx.eq('Eddington closure: Pr == Er/3 at the %s node' % nm, Rn(Pr * 3), Rn(Er), when=okr)
             flux = u * (rho * u * u / 2 + rho * e + p) + P0 * C0 * Fr
             # (a) what the code conserves by construction
@@ -637,8 +701,15 @@ class Flux(Obligation):
             kv = Ra(K)
             cx.eq('(a) energy flux at the %s node == C0 * (constant subtracted by dPdx there)' % nm,
                   Ra(flux), C0v * kv, when=okr, scale=sc(cx, u * rho * u * u / 2, u * rho * e, u * p, P0 * C0 * Fr))
+            if self.sn:
+                # with a transported Eddington factor the subtracted constant is the same on each side of M = 1 by
+                # construction; that it equals the analytic upstream value needs f == 1/3 in the two end states, i.e. a
+                # converged transport solution: outside the claim
+                j = 0 if i < 3 else 5
+                cx.eq('constant subtracted by dPdx at the %s node == the one of the %s end state' % (nm, NODE_NAMES[j]),
+                      R0(K), R0(cx['K'][j]), when=okP)
             # (b) that constant is the upstream total energy flux
-            if i < 3:
+            elif i < 3:
                 cx.eq('(b) constant subtracted by dPdx at the %s node == upstream total energy flux' % nm,
                       C0v * R0(K), en_up, when=okP)
             else:
@@ -646,7 +717,9 @@ class Flux(Obligation):
                       (C0v * R5(K) - en_up) * rho1 * rho1, M0 * R0(cx['res_en']) if cx.symbolic else 0.0, when=okP,
                       scale=None if cx.symbolic else [en_up * rho1 * rho1])
             # (c) the property, given (a) and (b)
-            if i == 5:
+            if self.sn:
+                pass
+            elif i == 5:
                 # (a) and (b) as hypotheses, both sides named: an instance of transitivity
                 fl, ck = (SymReal(T.var('flux5')), SymReal(T.var('C0K5'))) if cx.symbolic else (Ra(flux), C0v * kv)
                 cx.eq('total energy flux (with radiation flux) at the %s node == upstream value' % nm,
@@ -654,7 +727,7 @@ class Flux(Obligation):
             else:
                 cx.eq('total energy flux (with radiation flux) at the %s node == upstream value' % nm,
                       Ra(flux), en_up, when=okr & near(cx, C0v * kv, en_up))
-            if i in (0, 5):
+            if i in (0, 5) and not self.sn:
                 cx.eq('%s state in radiative equilibrium: T_rad == T_mat' % nm, Ra(Tr), Ra(Tm), when=okr)
                 cx.eq('%s state in radiative equilibrium: radiation flux == (4/3) beta Er' % nm, Ra(Fr * C0 * 3),
                       Ra(4 * u * Er), when=okr)
@@ -776,6 +849,8 @@ class FluxED(Obligation):
         self.max_paths = 16
         self.timeout_s = 40
         self.timeout_thorough_s = 600
+        self.twin_timeout_s = 2
+        self.budget_s = 240
         self.skip_validation = True
 
     def shim_extra(self):
@@ -901,17 +976,169 @@ class FluxED(Obligation):
                   when=okr, scale=sc(cx, u * rho * u * u / 2, u * rho * e, u * p, P0 * C0 * Fr))
 
 
+# ================================================================== Sn: variable Eddington factor
+
+def fake_make_RT_solution(self):
+    """replaces Sn_ShockProfiles.make_RT_solution (transport sweeps over a refined grid, angular moments, error norms):
+    installs an arbitrary two-knot variable-Eddington-factor table f(Mach) spanning every Mach number of the profile and
+    runs the REAL bookkeeping (make_dictionaries / update_dictionaries); one Eddington-factor iteration is requested"""
+    mk = _MK[0]
+    if 'f_iters' not in self.__dict__:
+        self.make_dictionaries()
+    self.x_RT = np.array([-1.0e9, 1.0e9])
+    self.d_x.append(self.x_RT)
+    self.Mach_RT = np.array([1000.0, 0.0])
+    self.f = _A(mk, ['f_hi', 'f_lo'])
+    zero = np.zeros(2)
+    self.P_RT, self.E_RT, self.F_RT, self.Im = zero, zero, zero, zero
+    self.update_dictionaries()
+    self.f_err.append(0.0)
+    self.make_RT_solution_bool = 1 if self.f_iters == 0 else 0
+
+
+class FluxSn(Flux):
+    """Sn_Solver(...) end to end: as C12.flux.nED, with the transport sweep replaced by an arbitrary variable Eddington
+    factor table; the second (real) assembly of the profile then uses Er = Pr / f(Mach)"""
+
+    def __init__(self, exps=True, eps=False):
+        Flux.__init__(self, 'nED', exps=exps, eps=False)
+        self.id = 'C12.flux.Sn%s' % ('.exps' if exps else '')
+        ut = H.mod(UT)
+        cls = H.mod(RS).Sn_Solver
+        self.functions = [cls.__init__, cls.setup_solver, H.mod(RK).greySn_RadShock.Sn_driver, ut.Sn_ShockProfiles.__init__,
+                          ut.Sn_ShockProfiles.continue_running, ut.Sn_ShockProfiles.make_dictionaries,
+                          ut.Sn_ShockProfiles.update_dictionaries, H.mod(FN['nED']).f_interp] + list(self.functions[2:])
+        self.bounds = self.bounds.replace('closure nED', 'Sn solver, problem nED, variable Eddington factor f(Mach) an arbitrary '
+                                          'linear table (f_lo, f_hi free)')
+        self.sn = True
+
+    def _solver(self, p):
+        ut = H.mod(UT)
+        with patched(ut.ShockMethods_2T, make_2T_solution=fake_make_2T_solution), \
+                patched(ut.Sn_ShockProfiles, make_RT_solution=fake_make_RT_solution):
+            s = H.mod(RS).Sn_Solver(**p)
+        prob = s._Sn_Solver__prob
+        return s, prob, prob.Sn_profile
+
+    def domain(self, V):
+        d = Flux.domain(self, V)
+        big = T.const(1000)
+        d += [T.lt(V('M0'), big), T.lt(V('Mp0'), big), T.lt(V('Mp1'), big), T.gt(V('f_lo'), T.ZERO), T.gt(V('f_hi'), T.ZERO),
+              T.gt(V('xp0'), T.const(-1000)), T.lt(V('xr0'), big)]
+        return d
+
+
+# ================================================================== downstream equilibrium on its own
+
+class JumpRad(Obligation):
+    """RadShockProfile.downstream_equilibrium with fsolve replaced by its contract: the residuals of the real
+    momentum_and_energy are, up to the nonzero factors rho1 and rho1^2/M0, the differences of the total momentum and total
+    energy fluxes (radiation pressure P0 T^4/3, equilibrium radiation flux (4/3) P0 u T^4) across the shock at mass flux M0"""
+
+    def __init__(self):
+        self.id = 'C12.jump.rad'
+        ut = H.mod(UT)
+        self.modules = [ut]
+        self.functions = [ut.RadShockProfile.downstream_equilibrium]
+        self.bounds = 'M0 > 1, gamma > 1, P0 > 0 symbolic; (rho1, T1) any zero of the coded residual with rho1, T1 > 0'
+        self.skip_validation = True
+
+    def shim_extra(self):
+        return {'print': H.quiet_print, 'scipy': SciProxy(_MK[0])}
+
+    def build(self, mk):
+        mk = tolerant(mk)
+        _MK[0] = mk
+        _RES[:] = []
+        sym_ = Mode.symbolic(mk)
+        ut = H.mod(UT)
+        if sym_ and isinstance(ut.__dict__.get('scipy'), SciProxy):
+            ut.__dict__['scipy']._mk = mk
+        prof = object.__new__(ut.RadShockProfile)
+        prof.M0, prof.gamma, prof.P0 = mk('M0'), mk('gamma'), mk('P0')
+        prof.downstream_equilibrium()
+        out = {k: getattr(prof, k) for k in ('Pr1', 'Er1', 'M1', 'speed1', 'rho1', 'T1')}
+        out = {k: (v if sym_ else float(v)) for k, v in out.items()}
+        out.update(M0=prof.M0, gamma=prof.gamma, P0=prof.P0)
+        out['res_mom'], out['res_en'] = (_RES[0], _RES[1]) if sym_ else (0.0, 0.0)
+        return out
+
+    def domain(self, V):
+        return [T.gt(V('M0'), T.ONE), T.gt(V('gamma'), T.ONE), T.gt(V('P0'), T.ZERO), T.gt(V('rho1'), T.ZERO),
+                T.gt(V('T1'), T.ZERO)]
+
+    def claims(self, cx):
+        M0, g, P0, rho1, T1, u1 = (cx[k] for k in ('M0', 'gamma', 'P0', 'rho1', 'T1', 'speed1'))
+        p1 = rho1 * T1 / g
+        e1 = T1 / (g * (g - 1))
+        mom_up = M0 * M0 + 1 / g + P0 / 3
+        en_up = M0 * (M0 * M0 / 2 + 1 / (g * (g - 1)) + 1 / g) + P0 * M0 * 4 / 3
+        cx.eq('mass flux: rho1 * speed1 == M0', rho1 * u1, M0)
+        cx.eq('Pr1 == T1^4 / 3', cx['Pr1'] * 3, T1 * T1 * T1 * T1)
+        cx.eq('Er1 == T1^4', cx['Er1'], T1 * T1 * T1 * T1)
+        cx.eq('M1 == speed1 / sqrt(T1)', cx['M1'] * cx.sqrt(T1), u1)
+        cx.eq('(total momentum flux downstream - upstream) * rho1 == momentum residual (contract: == 0)',
+              (rho1 * u1 * u1 + p1 + P0 * cx['Pr1'] - mom_up) * rho1, cx['res_mom'], scale=sc(cx, rho1 * mom_up))
+        cx.eq('(total energy flux downstream - upstream) * rho1^2 / M0 == energy residual (contract: == 0)',
+              (u1 * (rho1 * u1 * u1 / 2 + rho1 * e1 + p1) + 4 * P0 * u1 * cx['Pr1'] - en_up) * rho1 * rho1,
+              M0 * cx['res_en'], scale=sc(cx, rho1 * rho1 * en_up))
+
+
+class JumpIE(Obligation):
+    """IEShockProfile.downstream_equilibrium (closed form): hydrodynamic jump conditions between the end states of the
+    ion-electron profile as the code's own state functions define them"""
+
+    def __init__(self):
+        self.id = 'C12.jump.ie'
+        ut, fn = H.mod(UT), H.mod(FN['ie'])
+        self.modules = [ut, fn]
+        self.functions = [ut.IEShockProfile.downstream_equilibrium, fn.mat_density, fn.mat_temp]
+        self.extra_shim = {'print': H.quiet_print}
+        self.bounds = 'M0 > 1, gamma > 1, rho0 > 0 symbolic'
+        self.timeout_s = 40
+
+    def build(self, mk):
+        ut, fn = H.mod(UT), H.mod(FN['ie'])
+        prof = object.__new__(ut.IEShockProfile)
+        prof.M0, prof.gamma, prof.rho0 = mk('M0'), mk('gamma'), mk('rho0')
+        prof.downstream_equilibrium()
+        out = {k: getattr(prof, k) for k in ('M1', 'speed1', 'rho1', 'T1')}
+        out.update(M0=prof.M0, gamma=prof.gamma, rho0=prof.rho0)
+        out['rho_up'] = fn.mat_density(1.0, prof.M0, prof)
+        out['T_up'] = fn.mat_temp(1.0, prof.M0, prof)
+        out['rho_down'] = fn.mat_density(1.0, prof.M1, prof)
+        out['T_down'] = fn.mat_temp(1.0, prof.M1, prof)
+        return out
+
+    def domain(self, V):
+        return [T.gt(V('M0'), T.ONE), T.gt(V('gamma'), T.ONE), T.gt(V('rho0'), T.ZERO)]
+
+    def claims(self, cx):
+        M0, g, rho1, T1, u1 = (cx[k] for k in ('M0', 'gamma', 'rho1', 'T1', 'speed1'))
+        ru, Tu = cx['rho_up'], cx['T_up']
+        uu = M0 / ru
+        cx.eq('mass flux: rho1 * speed1 == M0', rho1 * u1, M0)
+        cx.eq('M1^2 T1 == speed1^2', cx['M1'] * cx['M1'] * T1, u1 * u1)
+        cx.eq('state functions at M1 reproduce rho1', cx['rho_down'], rho1)
+        cx.eq('state functions at M1 reproduce T1', cx['T_down'], T1)
+        cx.eq('momentum flux downstream == upstream', (rho1 * u1 * u1 + rho1 * T1 / g), (ru * uu * uu + ru * Tu / g))
+        cx.eq('energy flux per unit mass downstream == upstream', u1 * u1 / 2 + T1 / (g - 1), uu * uu / 2 + Tu / (g - 1))
+        cx.lt('downstream is subsonic: M1 < 1', cx['M1'], 1)
+
+
 def obligations(tier):
     obs = []
     for name in SOLVERS:
         obs.append(Scales(name))
         obs.append(Shift(name, defaults=False, n=2 if tier == 'quick' else 3))
         obs.append(Shift(name, defaults=True, n=2 if tier == 'quick' else 3))
+    obs.append(JumpRad())
+    obs.append(JumpIE())
     obs.append(FluxED())
+    obs.append(FluxSn())
     for v in ('nED', 'LM_nED', 'FLD_1'):
         obs.append(Flux(v, exps=True, eps=True))
-    obs.append(Flux('FLD_2'))
-    for v in ('FLD_poly', 'FLD_LP'):
+    for v in ('FLD_2', 'FLD_poly', 'FLD_LP'):
         obs.append(Flux(v, nodes=(0, 1, 4, 5) if tier == 'quick' else (0, 1, 2, 3, 4, 5)))
     if tier == 'thorough':
         for v in ('FLD_2', 'FLD_poly', 'FLD_LP'):
